@@ -144,6 +144,11 @@ def gen_arrays(rng, cfg, lin, const):
         h0 = rng.uniform(0.05, 0.085)
         ntot = {1: rng.randint(15, 40), 2: rng.randint(60, 140),
                 3: rng.randint(150, 260)}[dim]
+        if cfg['method'] == 'order1':
+            # the summation density of every ghost is tied too: keep it small
+            ntot = {1: rng.randint(15, 30), 2: rng.randint(40, 70),
+                    3: rng.randint(100, 140)}[dim]
+            h0 = rng.uniform(0.07, 0.085)
     else:
         h0 = rng.uniform(0.9, 1.6) * ntot ** (-1.0 / dim)
         if dim == 3:
@@ -1113,6 +1118,8 @@ def main():
     if only:
         cfgs = [cf for cf in cfgs if only in '%(api)s/%(method)s/%(dim)dD' % cf]
     ncases = 12 if a.tier == "quick" else 60
+    if os.environ.get('C14_NCASES'):        # debugging aid
+        ncases = int(os.environ['C14_NCASES'])
     if a.broken:
         ncases *= 2
     jobs = [(cfg, a.seed, ncases, corpus(cfg)) for cfg in cfgs]
